@@ -343,7 +343,9 @@ func (smf *SMFailed) UnmarshalXML(d *xml.Decoder, start xml.StartElement) error 
 				err = d.DecodeElement(&xnwf, &tt)
 				smf.StreamErrorGroup = &xnwf
 			default:
-				return errors.New("error is unknown")
+				// Not a condition we know (a descriptive <text/>, an application specific condition, an
+				// extension): it does not make the element unreadable. Skip it, up to its end tag.
+				err = d.Skip()
 			}
 			if err != nil {
 				return err
